@@ -20,8 +20,19 @@ A state is CONFORMING when
   * the cached area / centroid / circumcentre / aspect ratio / index of every valid slot agree with its vertices,
   * (after a successful step on a mesh without discarded slots) no discarded slot is left in the list handed to the user.
 
-Admissibility of a step is decided on the state BEFORE the step (see `adm_*`); histories are judged up to the first step that is
-inadmissible (unless it left the printed state untouched), in a tolerance band, or answered `err` with a changed state."""
+Admissibility of a step is decided on the state BEFORE the step (see `adm_*`, `classify_ap`); a history is judged step by step up to
+the first step that is inadmissible or in a tolerance band (unless it left the printed state untouched, then it is passed over), or
+that answered `err` and left a mesh that is not conforming any more (nothing is demanded of a failed step; when the mesh it leaves is
+still a conforming mesh of the polygon the history goes on from there).  `panic` / `fuel` after an admissible step on a conforming mesh
+is a failure.  A non-conforming mesh straight out of `from_polygon` is reported as `initial-mesh-not-conforming` (a finding about
+from_polygon, i.e. C01/C09, which makes the line useless for C08).
+
+Digest histories (d = 1) print neither the initial nor the intermediate states, so admissibility cannot be decided and nothing can be
+held against the crate; they are `ok` when the final state is a conforming mesh of the polygon (the conclusion of the property holds
+whatever the steps were) and skipped as `digest-history` otherwise.
+
+Verdict of a line: fail > ok (at least one step judged) > skip (key = reason why judging stopped before the first judged step).
+`report()` gives per step kind how many steps were reached with a known conforming pre-state and what became of them."""
 from fractions import Fraction
 import math, collections
 from . import common as OC
@@ -481,9 +492,6 @@ def area_check(cx, prev_sum, new_sum, exact, what):
         if abs(new_sum - prev_sum) * cx.tol['ON'] > abs(prev_sum):
             return ('area-changed', 'the sum of the triangle areas changed by a factor %.17g after %s' % (float(Fraction(new_sum, prev_sum)), what))
     return None
-
-def step_name(s):
-    return s[0]
 
 def judge_fa(cx, st, step, g):
     """get_flipped_aspect_ratio on a conforming state: returns None (fine / not judged) or (key, detail); second value: judged?"""
